@@ -260,7 +260,7 @@ Lemma ginv_step w meta ops pre d o :
   ginv w meta ops pre d -> op_wf o -> not_release o ->
   exists pre' d', ginv (w_step w o) meta (ops ++ [o]) pre' d' /\
     (w_seq (w_step w o) = w_seq w -> pre' = pre /\ sd_st0 d' = sd_st0 d /\ exists more, sd_L d' = sd_L d ++ more) /\
-    (w_seq (w_step w o) = w_seq w \/ sd_L d' = []).
+    (w_seq (w_step w o) = w_seq w \/ (sd_L d' = [] /\ exists x, pre' = pre ++ [x])).
 Proof.
   intros G Ho Hnr. pose proof G as [HL Hb Ht Hok Hst0 Hstate Hmeta Hnrec Hsync Hold].
   assert (Hrel : forall more,
@@ -315,7 +315,7 @@ Proof.
         all: try (rewrite last_state_op, E2s, E1s, Fs0; reflexivity).
         all: try (intros s Hs; destruct (sync_op_point fsx w2 _ _ H2 s Hs) as [Hos|Hnew]; [left; congruence|right; exact Hnew]).
       * eexists _, _. split; [exact G2|split; [intros _; apply Hrel|left; congruence]].
-    + eexists _, _. split; [apply ginv_cut; exact G2|]. split; [|right; reflexivity].
+    + eexists _, _. split; [apply ginv_cut; exact G2|]. split; [|right; split; [reflexivity|eexists; reflexivity]].
       intros Hq'. exfalso. destruct (w_cut_fields w2) as (_ & _ & _ & _ & _ & Fq & _). rewrite Fq in Hq'. lia.
   - (* SaveSnapshot *)
     unfold w_save_snapshot.
